@@ -133,7 +133,10 @@ pub fn model(ops: &[&ClientOp], clean_eof: bool) -> Expect {
 
 fn satisfies(owe: &Owe, result: Option<&serde_json::Value>, code: Option<i64>) -> bool {
     match owe {
-        Owe::Ok => result.is_some(),
+        // a result, or an error that is not one of the lifecycle codes (a server may answer a
+        // supported request it cannot serve - unknown document - with an error; it must not
+        // reject it as uninitialised / invalid-in-this-phase / unknown method)
+        Owe::Ok => result.is_some() || code.map_or(false, |c| ![SERVER_NOT_INITIALIZED, INVALID_REQUEST, METHOD_NOT_FOUND].contains(&c)),
         Owe::Null => result.map_or(false, |v| v.is_null()),
         Owe::NonNull => result.map_or(false, |v| !v.is_null()),
         Owe::Err(codes) => code.map_or(false, |c| codes.contains(&c)),
@@ -149,6 +152,8 @@ const DOC: &str = "proc main() {\n  var i: int;\n  i := 1;\n  printi(i);\n}\n";
 
 pub fn random_script(rng: &mut Rng, max_len: usize) -> Vec<Step> {
     let mut s = Session::new();
+    let (first, stride) = pick_id_scheme(rng);
+    s.id_scheme(first, stride);
     let uri = fresh_uri(0);
     let len = rng.range(1, max_len);
     let orderly = rng.chance(600);
